@@ -6,6 +6,7 @@ import time
 import types
 from pathlib import Path
 
+import warnings
 import numpy as np
 
 from . import core
@@ -149,6 +150,18 @@ def gen_trapezoid(ctx):
             + "\n".join(parts) + "\nend NessaiVerif.Gen.Trapezoid\n")
     rewritten = py2lean.write_if_changed(core.LEAN / "NessaiVerif" / "Gen" / "Trapezoid.lean", text)
     ctx.extra["generated"].update(dict(infos, trapezoid_rewritten=rewritten))
+
+
+def _plot_state(st):
+    import matplotlib
+    matplotlib.use("Agg", force=False)
+    import matplotlib.pyplot as plt
+    with np.errstate(all="ignore"), warnings.catch_warnings():
+        warnings.simplefilter("ignore")
+        fig = st.plot()
+    if fig is not None:
+        plt.close(fig)
+    plt.close("all")
 
 
 def _mp():
@@ -392,6 +405,10 @@ def run_real(case, offset=None):
             for i, (v, m, d) in enumerate(zip(ll, case["ns"], case["use_default"])):
                 if i == half and half > 0:
                     st2.finalise()
+                    # ... nor may DRAWING the state (NestedSampler.plot_state does it during a run): plotting reads the stored points
+                    # (seeded change C02-iA: plot() overwrote the stored X=1 node to make the curve start at the first sample)
+                    if (len(ll) + int(n)) % 3 == 0:
+                        _plot_state(st2)
                 if d:
                     st2.increment(v)
                 else:
@@ -478,7 +495,7 @@ def oracle(ctx, case, real, ref, fail=None):
     if real["state"] == "ok" and "logZ_after_interim_finalise" in real:
         a, b = real["logZ"], real["logZ_after_interim_finalise"]
         if not (a == b or (math.isnan(a) and math.isnan(b))):
-            fail("_NSIntegralState.finalise:interim-call", f"finalise() after an interim finalise() mid-run returns {b!r}; the same "
+            fail("_NSIntegralState.finalise:interim-call", f"finalise() after an interim finalise() (and, every third case, plot()) mid-run returns {b!r}; the same "
                  f"points without the interim call give {a!r}")
     if real["state"] == "ok":
         if real["ns"] != ref["sched"]:
